@@ -271,10 +271,11 @@ theorem selOverlap_uod {cfg : Cfg} {r : Req} {k : Nat} {c : Req} (h : selOverlap
   cases hn : c.name <;> simp_all [Req.isUod]
 
 theorem executeUod_spec {s : State} (h : Core s) (hfix : s.cfg.fixCancel = true) (htr : TrackEx s)
-    {r : Req} {k : Nat} (hr : r ∈ s.executing) (hk : r.name = .uod k) (hrd : r.id ∉ s.done) :
+    {r : Req} {k : Nat} (hr : r ∈ s.executing) (hk : r.name = .uod k) (hrd : r.id ∉ s.done)
+    (hp : s.paused = false) :
     ExecPost s (executeUod s r k).1 r k := by
   unfold executeUod
-  simp only
+  simp only [hp, Bool.false_eq_true, ↓reduceIte]
   rw [cancelSame_eq]
   have p1 := cancelWhere_spec (selSame r k) true s.executing h hfix htr (fun c hc => hc)
   obtain ⟨_, hex1, _, _, _, _, _, _, _, _, _, _, _, _, _, hcfg1, _⟩ := view_eq p1.view
@@ -358,5 +359,10 @@ theorem executeUod_spec {s : State} (h : Core s) (hfix : s.cfg.fixCancel = true)
       rw [hk] at h2
       injection h2 with h2
       exact absurd h2.symm (hnone o ho hm)
+
+/-- While the run is paused an interpreter-sourced request is not executed at all. -/
+theorem executeUod_paused {s : State} (r : Req) (k : Nat) (hp : s.paused = true) :
+    executeUod s r k = (s, false) := by
+  unfold executeUod; simp [hp]
 
 end OPM.CmdMgr
